@@ -15,6 +15,8 @@ type Lexer struct {
 	hadNewline    bool // newline was seen before current token
 	lastNewLine   int  // position just after most recent newline
 	lineNumber    int
+	// the input ended inside a string (the end marker was returned instead of a STRING token).
+	unterminatedString bool
 }
 
 // Mode with input expected the be complete (multiline/file).
@@ -30,6 +32,11 @@ func NewLineMode(input string) *Lexer {
 // Bytes based full input mode.
 func NewBytes(input []byte) *Lexer {
 	return &Lexer{input: input, lineNumber: 1}
+}
+
+// UnterminatedString tells if the input ended inside a string: the end marker was returned in its place.
+func (l *Lexer) UnterminatedString() bool {
+	return l.unterminatedString
 }
 
 func (l *Lexer) EOLEOF() *token.Token {
@@ -113,6 +120,7 @@ func (l *Lexer) NextToken() *token.Token {
 	case '"', '`':
 		str, ok := l.readString(ch)
 		if !ok {
+			l.unterminatedString = true
 			return l.EOLEOF()
 		}
 		return token.Intern(token.STRING, str)
